@@ -4,7 +4,7 @@ import struct
 from harness import core, connlib, serverlib
 
 PROP = "C11"
-LEAN_MODULES = ["MpgsModel.Props.C11", "MpgsModel.Props.C11Run", "MpgsModel.Props.C11Unverified"]
+LEAN_MODULES = ["MpgsModel.Props.C11", "MpgsModel.Props.C11Run", "MpgsModel.Props.C11Unverified", "MpgsModel.Props.C11Silent"]
 MODEL_MODULES = ["MpgsModel.Model.Server", "MpgsModel.Model.ToyAead"]
 NS = "Mpgs.Server."
 THEOREMS = [
@@ -22,10 +22,14 @@ THEOREMS = [
     (NS + "C11_no_amplification", "full"),
     (NS + "C11_no_amplification_until_promoted", "full"),
     (NS + "C11_unverified_budget", "full"),
+    (NS + "C11_unqueued_address_gets_nothing", "full"),
     (NS + "C11_halfopen_sends_only_replies", "full"),
     (NS + "C11_halfopen_receive", "full"),
 ]
 ASSUMPTIONS = [
+    "block list, whole runs (C11_blocklist_first + C11_unqueued_address_gets_nothing): the entry point queues nothing from a block-listed "
+    "ip, and over any run of the loop model an address none of whose datagrams was queued is sent no datagram at all - it can neither be "
+    "promoted (a connect needs a queued datagram from that very address) nor be owed a reply",
     "whole runs (C11_update_every_iteration, C11_loop_never_stalls): every iteration of the loop model reaches handler.update exactly once "
     "and a run of n iterations delivers n update events, for every batch (any bytes, addresses, number), pool content, handler behaviour "
     "(raising from every event included) and clock: in the model every try/except of the code is a `contained` event and there is no other "
